@@ -15,7 +15,7 @@ CHECKS = {
  "C08": ("exploration", "Seeded search over schedules with duplicate / double-spelled requests, shared dependencies and --clean T: counts of starts+skips per target and byte comparison of outsiders' state and outputs before/after.", "§7 C08"),
  "C10": ("fault_enumeration", "For sampled scenarios (one-shot, watch, wide graphs) and schedules: the termination signal at every decision index (quick: 96 evenly spaced) and a failure of each build, with all scripts frozen from that instant: main must return (no stall), no build/service shell left running or unreaped, exit status as specified.", "§7 C10"),
  "C11": ("exploration", "Seeded search over service/build/aggregate mixes with the signal delivered only at idle, one-shot and --watch (restarts): keep-alive iff a service stands behind a root; dependency services outlive dependent builds; at most one live instance per service.", "§7 C11"),
- "C12": ("exploration", "Histories containing --clean / --clean T over trees decorated with non-matching files, nested directories and symlinks (to files, directories, dangling, pointing outside): recursive tree snapshot after-before must equal the model's deletion set plus script effects; cleaned targets never skipped.", "§7 C12"),
+ "C12": ("exploration", "Histories containing --clean / --clean T over trees decorated with non-matching files, nested directories and symlinks (to files, directories, dangling, pointing outside): recursive tree snapshot after-before must equal the model's deletion set plus script effects; cleaned targets never skipped; zinoma killed at sampled decision indices inside --clean must have deleted nothing outside that set.", "§7 C12"),
  "C13": ("exploration", "History engine on producer/consumer layouts across projects (shared output directories told apart by extension filters, identical command texts): the consumer's decision must equal the model's decision with the producer's output resources appended, both directions.", "§7 C13"),
  "C14": ("exploration", "Arrangements of project files (name clashes, cycles, self-imports, wrong import keys) each executed under 8 seeded hash orders: no panic/abort; same verdict and same started scripts for every hash order. Only the determinism + no-abort half of C14; totality over byte strings and schema strictness are not covered.", "§7 C14"),
  "C16": ("exploration", "--watch sessions with one burst per idle point: irrelevant changes (other extensions, .zinoma incl. zinoma's own state writes, editor temporaries), hostile names (invalid UTF-8, newline, dots), relevant changes; the documented relevance rule re-implemented: irrelevant bursts cause no evaluation, relevant ones always do, the session becomes idle again.", "§7 C16"),
